@@ -374,6 +374,70 @@ func TestVerifC10SM4(t *testing.T) {
 					}
 					r.Eval(fmt.Sprintf("%s|record-idiom(aad=dst-prefix)|pt[%s]", pn, kernelClass(len(c.pt))))
 				}
+				// ---------------- ADJACENT but not overlapping arguments in one backing array: an input starts exactly at the
+				// byte where the output region ends (or ends exactly where it starts). Legal for every AEAD; an
+				// overlap test that is off by one refuses it.
+				{
+					n, tg := len(c.pt), c.tag
+					for variant := 0; variant < 4; variant++ {
+						var out []byte
+						var buf []byte
+						var wantAfter []byte
+						d := c.detail()
+						p, msg, _, _ := hk.Try(func() {
+							switch variant {
+							case 0: // [room n+tag][plaintext]
+								buf = make([]byte, n+tg+n)
+								copy(buf[n+tg:], c.pt)
+								out = a.Seal(buf[:0:n+tg], gNonce.B, buf[n+tg:], gAad.B)
+								d["layout"] = "[output room][plaintext]"
+							case 1: // [plaintext][room n+tag]
+								buf = make([]byte, n+n+tg)
+								copy(buf, c.pt)
+								out = a.Seal(buf[n:n:n+n+tg], gNonce.B, buf[:n], gAad.B)
+								d["layout"] = "[plaintext][output room]"
+							case 2: // [room n+tag][aad]
+								buf = make([]byte, n+tg+len(c.aad))
+								copy(buf[n+tg:], c.aad)
+								out = a.Seal(buf[:0:n+tg], gNonce.B, gPt.B, buf[n+tg:])
+								d["layout"] = "[output room][aad]"
+							default: // [nonce][room n+tag]
+								buf = make([]byte, len(c.nonce)+n+tg)
+								copy(buf, c.nonce)
+								out = a.Seal(buf[len(c.nonce):len(c.nonce):len(buf)], buf[:len(c.nonce)], gPt.B, gAad.B)
+								d["layout"] = "[nonce][output room]"
+							}
+						})
+						_ = wantAfter
+						if p {
+							d["panic"] = msg
+							r.Violation("seal-panics-on-adjacent-arguments:"+pn, d)
+						} else if !bytes.Equal(out, sealed) {
+							r.Violation("seal-wrong-on-adjacent-arguments:"+pn, d)
+						}
+						// Open: [room n][ciphertext] and [ciphertext][room n]
+						var pt []byte
+						var oerr error
+						p, msg, _, _ = hk.Try(func() {
+							if variant%2 == 0 {
+								b2 := make([]byte, n+len(sealed))
+								copy(b2[n:], sealed)
+								pt, oerr = a.Open(b2[:0:n], gNonce.B, b2[n:], gAad.B)
+							} else {
+								b2 := make([]byte, len(sealed)+n)
+								copy(b2, sealed)
+								pt, oerr = a.Open(b2[len(sealed):len(sealed):len(b2)], gNonce.B, b2[:len(sealed)], gAad.B)
+							}
+						})
+						if p {
+							d["panic"] = msg
+							r.Violation("open-panics-on-adjacent-arguments:"+pn, d)
+						} else if oerr != nil || !bytes.Equal(pt, c.pt) {
+							r.Violation("open-wrong-on-adjacent-arguments:"+pn, d)
+						}
+					}
+					r.Eval(fmt.Sprintf("%s|adjacent-arguments|pt[%s]", pn, kernelClass(len(c.pt))))
+				}
 				// ---------------- Block: inputs intact, repeatable
 				{
 					blk, _ := NewCipher(gKey.B)
